@@ -278,7 +278,9 @@ impl Parser {
                     ident.mark_imported();
 
                     match ident.ty().unwrap().as_ref() {
-                        TypeLayout::Class(class_type) => {
+                        // the CLASS is exported under its own name; a variable that merely holds an object of the
+                        // class (`export box: Box = Box(1)`) keeps its declared type
+                        TypeLayout::Class(class_type) if class_type.name() == ident.name() => {
                             input
                                 .user_data()
                                 .add_type(ident.boxed_name(), ident.ty().cloned().unwrap());
